@@ -5,7 +5,11 @@
   the tagged `switch` as a chain of tests on the byte read once), never panic and compute the
   hand-written model: `shiftSelectorB` / `shiftIdx` (Gts/Model/Locator.lean, Gts/Lemmas/SelShift.lean,
   used by C07 and C19) for every string and every fuel ≥ its length, and `splitEqB` for the
-  arguments `toQualifier` passes to `Qualifier` (a parameter: regexp is external).
+  arguments `toQualifier` passes to `Qualifier` (a parameter: regexp is external).  `Selector` is
+  regenerated over ABSTRACT filters and errors (`Key`, `And`, `FalseFilter`, `Qualifier` are parameters):
+  the loop `for tail != ""` literally with fuel computes `selectorSpec` — the key filter combined by
+  `And` with the clause filters in order, the first error ending it (`selector_eq`); read on predicates
+  with regexp-free clauses it is the locator model's `selectorMatch` (`selector_match`).
 -/
 import Gts.Gen.FeatSelector
 import Gts.Lemmas.GoList
@@ -147,11 +151,124 @@ theorem toQualifier_eq {ρ : Type} (q : Bytes → Bytes → ρ) (s : Bytes) :
     rw [if_neg (by omega), Gen.goTo_nat s i (by omega), h2]
     rfl
 
+/-! ### `Selector` -/
+
+/-- the clause loop of `Selector` on the clause texts: every clause `name[=query]` is split at its first `=` and
+handed to `Qualifier`; the first error ends the loop with `(FalseFilter, err)`, otherwise the filter is
+`And(filter, clause filter)` -/
+def selectorGo {φ ε : Type} (false_ : φ) (and_ : φ → φ → φ) (qual : Bytes → Bytes → φ × Option ε) :
+    List Bytes → φ → φ × Option ε
+  | [], f => (f, none)
+  | part :: rest, f =>
+    if (qual (splitEqB part).1 (splitEqB part).2).2.isSome = true then
+      (false_, (qual (splitEqB part).1 (splitEqB part).2).2)
+    else selectorGo false_ and_ qual rest (and_ f (qual (splitEqB part).1 (splitEqB part).2).1)
+
+/-- what `Selector(sel)` computes, on the model's decomposition of the selector string (`shiftSelectorB`,
+`selectorParts` of Gts/Model/Locator.lean): `Key(head)` combined with the clauses in order -/
+def selectorSpec {φ ε : Type} (key : Bytes → φ) (false_ : φ) (and_ : φ → φ → φ)
+    (qual : Bytes → Bytes → φ × Option ε) (s : Bytes) : φ × Option ε :=
+  selectorGo false_ and_ qual (selectorParts ((shiftSelectorB s).2.length + 1) (shiftSelectorB s).2)
+    (key (shiftSelectorB s).1)
+
+/-- what `Selector` returns for an outcome of its loop -/
+def selFinish {φ ε : Type} : Option (Gen.Flow (Bytes × Bytes × φ) (φ × Option ε)) → Option (φ × Option ε)
+  | none => none
+  | some (.ret r) => some r
+  | some (.next st) => some (st.2.2, none)
+
+/-- the loop `for tail != ""` of `Selector`: any function with these two equations, with fuel for the
+remaining text, consumes the clauses as `selectorGo` does (`F` is the fuel of the `shiftSelector` calls) -/
+theorem selLoop_shape {φ ε : Type} (loop : Nat → Bytes → Bytes → φ → Option (Gen.Flow (Bytes × Bytes × φ) (φ × Option ε)))
+    (F : Nat) (false_ : φ) (and_ : φ → φ → φ) (qual : Bytes → Bytes → φ × Option ε)
+    (h0 : ∀ head tail f, loop 0 head tail f = some (.next (head, tail, f)))
+    (hs : ∀ n head tail f, loop (n + 1) head tail f =
+      if tail ≠ [] then
+        (Gen.shiftSelector F tail).bind fun x => (Gen.toQualifier qual x.1).bind fun y =>
+          if y.2.isSome = true then some (.ret (false_, y.2)) else loop n x.1 x.2 (and_ f y.1)
+      else some (.next (head, tail, f))) :
+    ∀ (n : Nat) (head tail : Bytes) (f : φ), tail.length ≤ n → tail.length ≤ F →
+      selFinish (loop n head tail f) = some (selectorGo false_ and_ qual (selectorParts (tail.length + 1) tail) f)
+  | 0, head, tail, f, hn, _ => by
+    have : tail = [] := List.eq_nil_of_length_eq_zero (by omega)
+    subst this
+    rw [h0]
+    rfl
+  | n + 1, head, tail, f, hn, hF => by
+    rw [hs]
+    cases tail with
+    | nil => rw [if_neg (by simp)]; rfl
+    | cons c r =>
+      rw [if_pos (by simp), shiftSelector_eq _ _ hF, Option.bind_some, toQualifier_eq, Option.bind_some]
+      have hlt := shiftSelectorB_tail_lt c r
+      simp only [selectorParts, List.isEmpty_cons, Bool.false_eq_true, if_false, selectorGo]
+      split
+      · rfl
+      · rw [selLoop_shape loop F false_ and_ qual h0 hs n _ _ _ (by omega) (by omega)]
+        rw [selectorParts_fuel ((shiftSelectorB (c :: r)).2.length + 1) (c :: r).length _ (by omega) (by omega)]
+
+/-- **`Selector(sel)` as feature.go defines it now never panics and computes `selectorSpec`**: the key filter of the
+text before the first free `/`, combined by `And` with the `Qualifier` filter of every further clause (split at its
+first `=`), in order; the first `Qualifier` error ends it with `(FalseFilter, err)` — for every string, every
+`Key` / `And` / `FalseFilter` / `Qualifier` and every fuel above the length of the string (the loop ends: every
+round removes at least one byte of `tail`) -/
+theorem selector_eq {φ ε : Type} (key : Bytes → φ) (false_ : φ) (and_ : φ → φ → φ)
+    (qual : Bytes → Bytes → φ × Option ε) (s : Bytes) (fuel : Nat) (h : s.length ≤ fuel) :
+    Gen.selector fuel key false_ and_ qual s = some (selectorSpec key false_ and_ qual s) := by
+  simp only [Gen.selector]
+  rw [shiftSelector_eq s fuel h, Option.bind_some]
+  have htl : (shiftSelectorB s).2.length ≤ s.length := shiftSelectorGo_tail_le s false
+  have := selLoop_shape (Gen.selectorLoop fuel false_ and_ qual) fuel false_ and_ qual
+    (fun _ _ _ => by rw [Gen.selectorLoop]) (fun _ _ _ _ => by rw [Gen.selectorLoop])
+    fuel (shiftSelectorB s).1 (shiftSelectorB s).2 (key (shiftSelectorB s).1) (by omega) (by omega)
+  simp only [selectorSpec]
+  rw [← this]
+  cases Gen.selectorLoop fuel false_ and_ qual fuel (shiftSelectorB s).1 (shiftSelectorB s).2 (key (shiftSelectorB s).1) with
+  | none => rfl
+  | some r => cases r <;> rfl
+
+/-- for regexp-free clauses (`Qualifier` never fails and tests `qualifierMatch`), with `Key` and `And` read as
+predicates, the filter `Selector(s)` returns accepts exactly the features `selectorMatch s` accepts — the function
+behind the protocol answers of the locator model (Gts/Model/Locator.lean) -/
+theorem selector_match (s : Bytes) (fuel : Nat) (h : s.length ≤ fuel) :
+    ∃ flt : Feature → Bool,
+      Gen.selector (ε_ := Unit) fuel (fun k f => k.isEmpty || f.key.toUTF8.toList == k) (fun _ => false)
+        (fun a b f => a f && b f) (fun n q => (qualifierMatch n q, none)) s = some (flt, none) ∧
+      ∀ f, flt f = selectorMatch s f := by
+  rw [selector_eq _ _ _ _ s fuel h]
+  have key : ∀ (parts : List Bytes) (g : Feature → Bool),
+      ∃ flt : Feature → Bool, selectorGo (ε := Unit) (fun _ => false) (fun a b f => a f && b f)
+        (fun n q => (qualifierMatch n q, none)) parts g = (flt, none) ∧
+        ∀ f, flt f = (g f && parts.all fun part => qualifierMatch (splitEqB part).1 (splitEqB part).2 f) := by
+    intro parts
+    induction parts with
+    | nil => intro g; exact ⟨g, rfl, fun f => by simp⟩
+    | cons p ps ih =>
+      intro g
+      obtain ⟨flt, h1, h2⟩ := ih (fun f => g f && qualifierMatch (splitEqB p).1 (splitEqB p).2 f)
+      refine ⟨flt, ?_, fun f => ?_⟩
+      · simp only [selectorGo, Option.isSome_none, Bool.false_eq_true, if_false]
+        exact h1
+      · rw [h2 f]
+        simp only [List.all_cons, Bool.and_assoc]
+  obtain ⟨flt, h1, h2⟩ := key (selectorParts ((shiftSelectorB s).2.length + 1) (shiftSelectorB s).2)
+    (fun f => (shiftSelectorB s).1.isEmpty || f.key.toUTF8.toList == (shiftSelectorB s).1)
+  refine ⟨flt, by simp only [selectorSpec]; rw [h1], fun f => ?_⟩
+  rw [h2 f]
+  rfl
+
 -- non-vacuity: an escaped slash is skipped, the first free one splits (`a\/b/c=d`); the clause is split
 -- at its first `=`
 example : Gen.shiftSelector 8 [97, 92, 47, 98, 47, 99, 61, 100] = some ([97, 92, 47, 98], [99, 61, 100]) := by
   rw [shiftSelector_eq _ _ (by decide)]; decide
 example : Gen.toQualifier (fun a b => (a, b)) [99, 61, 100, 61] = some ([99], [100, 61]) := by
   rw [toQualifier_eq]; decide
+-- a key and two clauses, the second one failing: `g/a=b/c` with a `Qualifier` that rejects the name `c`
+example : Gen.selector 7 (fun k => [k]) [] (fun a b => a ++ b)
+    (fun n q => ([n ++ q], if n = [99] then some () else none)) [103, 47, 97, 61, 98, 47, 99] = some ([], some ()) := by
+  rw [selector_eq _ _ _ _ _ _ (by decide)]; decide
+example : Gen.selector 5 (fun k => [k]) [] (fun a b => a ++ b)
+    (fun n q => ([n ++ q], (none : Option Unit))) [103, 47, 97, 61, 98] = some ([[103], [97, 98]], none) := by
+  rw [selector_eq _ _ _ _ _ _ (by decide)]; decide
 
 end Gts.Bridge
